@@ -33,7 +33,9 @@ def main():
     for line in sys.stdin:
         f = line.rstrip("\n").split("|")
         try:
-            if f[0] == "P":            # run a program, then prove
+            if f[0] == "M":
+                out = f"{f[1]}|{B.get_modulus()}"
+            elif f[0] == "P":            # run a program, then prove
                 res = W.handle_prog(f[1:])
                 status = res.split("|")[1]
                 files = prove_here()
